@@ -9,6 +9,7 @@ C20).  `fixTerminal = true` / inner `fixClosed = true` is the repaired code (two
 import P2.Model.SyncProto
 import P2.Model.SyncEvents
 import P2.Lemmas.C22
+import P2.Extracted.C22
 
 namespace P2.C22
 open P2.Sync
@@ -376,5 +377,24 @@ example :
        .live .close, .send true, .recv (.sync .closed), .close true]).events
     = [TEv.syncStarted {}, TEv.syncFinished {}, TEv.liveModeStarted, TEv.liveOpReceived 6, TEv.sessionFinished] := by
   decide
+
+/-! ## Tie to the current source text (regenerated into `P2/Extracted/C22.lean` on every run) -/
+
+/-- The event/close ordering of `TopicLogSync::run` as `topic_log_sync.rs` reads *now*, branch by
+    branch of `P2.Sync.tstep`: a failing `resolve` announces `Failed` and returns (`finish … topicStore`);
+    a failed inner session announces `Failed` **before** `log_sync_sink.close()` (`.closeAfterFail`);
+    `SyncFinished` follows a successful inner session; at the end `close()` is attempted without `?`,
+    its outcome is merged into `result`, and only then the final event is sent (`.closing`, `finish`). -/
+theorem c22_extracted_event_order :
+    P2.Extracted.C22.resolveFailBranch = "let err = TopicLogSyncError::TopicStore(err.to_string()); self.event_tx .send(TopicLogSyncEvent::Failed { error: err.to_string(), }) .map_err(|_| TopicLogSyncChannelError::EventSend)?; return Err(err);" ∧
+    P2.Extracted.C22.innerFailBranch = "self.event_tx .send(TopicLogSyncEvent::Failed { error: err.to_string(), }) .map_err(|_| TopicLogSyncChannelError::EventSend)?; log_sync_sink .close() .await .map_err(|err| TopicLogSyncChannelError::MessageSink(format!(\"{err:?}\")))?; return Err(err.into());" ∧
+    P2.Extracted.C22.syncFinishedBranch = "self.event_tx .send(TopicLogSyncEvent::SyncFinished { metrics: metrics.clone().into(), }) .map_err(|_| TopicLogSyncChannelError::EventSend)?;" ∧
+    P2.Extracted.C22.closeThenResult = "let close_result = sink .close() .await .map_err(|err| TopicLogSyncChannelError::MessageSink(format!(\"{err:?}\"))); let result = match (result, close_result) { (Err(err), _) => Err(err), (Ok(()), Err(err)) => Err(err.into()), (Ok(()), Ok(())) => Ok(()), };" ∧
+    P2.Extracted.C22.finalSend = "self.event_tx .send(final_event) .map_err(|_| TopicLogSyncChannelError::EventSend)?; result" :=
+  ⟨rfl, rfl, rfl, rfl, rfl⟩
+
+/-- the known finding at source level: no non-test code of p2panda-sync mentions
+    `TopicLogSyncEvent::SessionStarted` (model: no `tstep` branch emits `.sessionStarted`) -/
+theorem c22_extracted_session_started_unused : P2.Extracted.C22.sessionStartedUses = 0 := by decide
 
 end P2.C22
